@@ -195,6 +195,12 @@ def eval_invalid(case, C):
     spec = _spec(inv["spec"])
     f = []
     for cls in (C.ColorFmt, C.ColorBytes):
+        if inv.get("prime") is not None:
+            # history: the valid value that compares equal to the invalid one (3 vs 3.0) was used just before
+            pr = _spec(inv["prime"])
+            for c2 in (C.ColorFmt, C.ColorBytes):
+                c2(pr)
+                c2(None, bg_color=pr)
         try:
             if inv["where"] == "fg":
                 cls(spec)
@@ -205,7 +211,8 @@ def eval_invalid(case, C):
             pass
         except Exception as e:   # noqa
             f.append(("invalid_spec_raises_" + type(e).__name__, f"{cls.__name__} {inv!r}: {e}"))
-    return Outcome(True, ["invalid_spec"], f, key=["inv", inv["spec"], inv["where"]], evals=2)
+    return Outcome(True, ["invalid_spec"] + (["invalid_spec_after_equal_valid_one"] if inv.get("prime") is not None else []), f,
+                   key=["inv", inv["spec"], inv["where"], inv.get("prime")], evals=2)
 
 
 def all_specs():
@@ -241,6 +248,10 @@ def axis_enum():
     for sp in INVALID:
         yield {"invalid": {"spec": sp, "where": "fg"}}
         yield {"invalid": {"spec": sp, "where": "bg"}}
+    for valid, inval in [(3, 3.0), (200, 200.0), (0, 0.0), (255, 255.0), ([1, 2, 3], [1.0, 2, 3]), ([5, 5, 5], [5, 5.0, 5]),
+                         ([0, 0, 0], [0.0, 0.0, 0.0]), (7, 7.0)]:
+        for w in ("fg", "bg"):
+            yield {"invalid": {"spec": inval, "where": w, "prime": valid}}
 
 
 def st_spec():
@@ -285,7 +296,13 @@ def st_invalid():
         st.text("abcdefgxyzRED", min_size=1, max_size=6).filter(
             lambda s: s not in NAMES and not (s[0] == "g" and s[1:].isdigit())),
         st.floats(allow_nan=False, allow_infinity=False))
-    return st.builds(lambda s, w: {"invalid": {"spec": s, "where": w}}, bad, st.sampled_from(["fg", "bg"]))
+    twins = st.one_of(
+        st.integers(0, 255).map(lambda i: (i, float(i))),
+        st.tuples(st.integers(0, 5), st.integers(0, 5), st.integers(0, 5), st.integers(0, 2)).map(
+            lambda t: ([t[0], t[1], t[2]], [float(c) if k == t[3] else c for k, c in enumerate(t[:3])])))
+    return st.one_of(
+        st.builds(lambda s, w: {"invalid": {"spec": s, "where": w}}, bad, st.sampled_from(["fg", "bg"])),
+        st.builds(lambda t, w: {"invalid": {"spec": t[1], "where": w, "prime": t[0]}}, twins, st.sampled_from(["fg", "bg"])))
 
 
 def parts(tier):
